@@ -419,7 +419,10 @@ func (m *resWrangler) SubsetThatCouldBeReferencedByResource(
 		// The two objects are namespaced (not cluster-scoped), AND
 		// are in different namespaces.
 		// There's still a chance they can refer to each other.
-		if roleBindingNamespaces[possibleTarget.GetNamespace()] {
+		// An account written without a namespace is in the default
+		// namespace (see IsNsEquals), which a subject may spell out.
+		if roleBindingNamespaces[possibleTarget.GetNamespace()] ||
+			roleBindingNamespaces[id.EffectiveNamespace()] {
 			result.append(possibleTarget)
 		}
 	}
